@@ -325,6 +325,8 @@ class DataFrameV:
             return _ILoc(self)
         if attr == "loc":
             return _Loc(self)
+        if attr == "name" and getattr(self, "name", None) is not None:
+            return self.name          # the group key of a sub-frame handed to groupby(...).apply(f)
         if attr == "columns":
             return list(self.cols.keys())
         if attr == "groupby":
